@@ -7,6 +7,7 @@ This file only dispatches protocol lines `c08 kind=…`.  No Mathlib here (linke
 -/
 import Mahotas.Model.C08Base
 import Mahotas.Model.C08ViewsA
+import Mahotas.Model.C08ViewsB
 namespace Mahotas.C08
 open Mahotas
 
@@ -95,6 +96,7 @@ def handleBase (a : Args) : String :=
 def handle (a : Args) : String :=
   match a.str "kind" with
   | "kviewA" => handleViewsA a
+  | "kviewB" => handleViewsB a
   | _ => handleBase a
 
 end Mahotas.C08
